@@ -600,9 +600,14 @@ func init() {
 		}})
 	}
 	// subscribers on another node: two of them on the same node, plus a local one
-	for _, nsub := range []int{1, 2, 3} {
+	// (the two-subscriber case also decides C12's "an event sent to a process on a connected node is received exactly once")
+	for _, nsub := range []int{1, 2, 3, 12} {
 		nsub := nsub
-		harn.Register(harn.Scenario{Property: "C18", Name: fmt.Sprintf("remote-%d-subscribers", nsub), Run: func(c *harn.Ctx) *harn.Result {
+		prop := "C18"
+		if nsub == 12 {
+			nsub, prop = 2, "C12"
+		}
+		harn.Register(harn.Scenario{Property: prop, Name: fmt.Sprintf("remote-%d-subscribers", nsub), Run: func(c *harn.Ctx) *harn.Result {
 			return harn.Explore(c, harn.Sched{QuickBound: 1, ThoroughBound: 2, Preempt: false, Cache: true, HorizonS: 30, Body: netBody(netOpts{}, func(nw *NetWorld) {
 				ea := newEvWorld(nw.a)
 				eb := &evWorld{w: nw.b, ev: gen.Event{Name: "ev", Node: nw.a.n.Name()}, got: map[string][]string{}, ends: map[string][]string{}}
